@@ -218,10 +218,21 @@ class IoSim(Engine):
                     key = (kind, 'strict')
                     if key not in seen:
                         seen.add(key)
+                        sig = {'side': 'load', 'kind': kind,
+                               'config': 'fault-free' if fault is None else 'eintr',
+                               'diff': self.diff_class(ref, out)}
+                        if sig['diff'] == 'exception-class':
+                            # which error the str source reports and which family the
+                            # other kind's error belongs to (known_findings.json names
+                            # one such pair; any other pair is still reported)
+                            sig['str_exc'] = ref['exc']
+                            sig['exc_family'] = ('yaml-syntax' if out['exc'] in (
+                                'yaml.scanner.ScannerError', 'yaml.parser.ParserError',
+                                'yaml.composer.ComposerError') else out['exc'])
+                            sig.pop('kind')
                         violations.append(self.violation(
                             'load outcome differs between source kinds',
-                            {'side': 'load', 'kind': kind, 'config': 'fault-free' if fault is None else 'eintr',
-                             'diff': self.diff_class(ref, out)},
+                            sig,
                             {'doc': plan['doc'], 'schedule': schedule, 'boundary': bclass,
                              'str_outcome': self.brief(ref), 'outcome': self.brief(out),
                              'knobs': knobs}))
